@@ -9,6 +9,7 @@ def prepare():
     import universe
     universe.build("quick")
     universe.build_general("quick")
+    universe.build_holes("quick")
     theorem_tg("quick")
 
 
@@ -26,10 +27,7 @@ def theorem_tg(tier):
 def run(tier, seed, t0):
     nconf, stride = (3, 1) if tier == "quick" else (12, 1)
     v, cov, shapes = pc.run_pairs(PID, tier, seed, "int", nconf, stride)
-    v, gcov, _ = pc.run_pairs(PID, tier, seed, "int", nconf, stride, general=True, v=v)
-    cov["general_slopes"] = pc.general_cov(gcov)
-    cov["evaluations"] += gcov["evaluations"]
-    cov["distinct_nontrivial"] += gcov["distinct_nontrivial"]
+    v = pc.extra_universes(PID, tier, seed, "int", nconf, stride, v, cov)
     tg, nshapes = theorem_tg(tier)
     cov["theorem_TG"] = {"receivers": tg["distinct"] - 1, "against_shapes": nshapes, "holds": True, "wall_s": tg["wall_s"]}
     rc = v.finish()
